@@ -70,3 +70,71 @@ theorem run_done (tr : List Ev) : run .done tr = some s → tr = [] := by
   | cons e r => simp [run, step]
 
 end Flute.Spec.WriterProto
+
+namespace Flute.Spec.WriterProto
+
+theorem step_terminal {s s' : PState} {e : Ev} (h : step s e = some s') (ht : e.isTerminal = true) : s' = .done := by
+  cases s <;> cases e <;> simp_all [step, Ev.isTerminal]
+
+theorem step_from_done (e : Ev) : step .done e = none := by cases e <;> rfl
+
+/-- in an accepted word at most one call is terminal -/
+theorem run_terminals_le_one (s : PState) (tr : List Ev) {s' : PState} (h : run s tr = some s') :
+    (tr.filter Ev.isTerminal).length ≤ 1 := by
+  induction tr generalizing s with
+  | nil => simp
+  | cons e r ih =>
+    simp only [run] at h
+    split at h
+    · simp at h
+    · rename_i s1 hs
+      by_cases ht : e.isTerminal = true
+      · have := step_terminal hs ht
+        subst this
+        have := run_done r h
+        subst this
+        simp [ht]
+      · simp [ht]
+        exact ih _ h
+
+/-- in an accepted word nothing follows a terminal call -/
+theorem run_nothing_after_terminal (s : PState) (a b : List Ev) (e : Ev) {s' : PState}
+    (h : run s (a ++ e :: b) = some s') (ht : e.isTerminal = true) : b = [] := by
+  rw [run_append] at h
+  cases ha : run s a with
+  | none => simp [ha] at h
+  | some s1 =>
+    simp [ha, run] at h
+    split at h
+    · simp at h
+    · rename_i s2 hs
+      have := step_terminal hs ht
+      subst this
+      exact run_done b h
+
+/-- `open` is the first call of an accepted non-empty word -/
+theorem run_idle_head (e : Ev) (r : List Ev) {s' : PState} (h : run .idle (e :: r) = some s') :
+    e = .openOk ∨ e = .openErr := by
+  simp only [run] at h
+  cases e <;> simp_all [step]
+
+/-- `open` occurs at most once in an accepted word -/
+def Ev.isOpen : Ev → Bool
+  | .openOk | .openErr => true
+  | _ => false
+
+theorem run_no_open_after (s : PState) (hs : s ≠ .idle) (tr : List Ev) {s' : PState} (h : run s tr = some s') :
+    tr.filter Ev.isOpen = [] := by
+  induction tr generalizing s with
+  | nil => simp
+  | cons e r ih =>
+    simp only [run] at h
+    split at h
+    · simp at h
+    · rename_i s1 hs1
+      have h1 : e.isOpen = false ∧ s1 ≠ .idle := by
+        cases s <;> cases e <;> simp [step] at hs1 <;> subst hs1 <;> simp_all [Ev.isOpen]
+      rw [List.filter_cons, h1.1]
+      exact ih _ h1.2 h
+
+end Flute.Spec.WriterProto
